@@ -282,6 +282,7 @@ class Lattice(keras.layers.Layer):
       ValueError: If layer hyperparameters are invalid.
     """
     # pyformat: enable
+    utils.verify_units(units)
     lattice_lib.verify_hyperparameters(
         lattice_sizes=lattice_sizes,
         monotonicities=monotonicities,
